@@ -249,7 +249,7 @@ def validate(tier, seed):
     res = [validate_polyspline(seed, trials=20)]
     d = tempfile.mkdtemp(prefix='verif_c13_')
     try:
-        shutil.copy('/repo/pgradd/data/BensonGA/scheme.yaml', os.path.join(d, 'scheme.yaml'))
+        shutil.copy(__import__('vf.symkit').symkit.REPO + '/pgradd/data/BensonGA/scheme.yaml', os.path.join(d, 'scheme.yaml'))
         with open(os.path.join(d, 'library.yaml'), 'w') as f:
             f.write("units:\n  molar enthalpy: kcal/mol\n  molar entropy: cal/mol/K\n  molar heat capacity: cal/mol/K\n"
                     "groups:\n  C(C)(H)3:\n    thermochem:\n      H_ref: -10.0\n  C(H)3(C):\n    thermochem:\n      H_ref: -10.0\n")
